@@ -258,6 +258,43 @@ fn run_case(target: &str, seed: u64, len: usize) -> (String, String) {
             let (sa, _) = src(a.clone());
             rec!(sa.into_interleaved_samples().into_iter().count(), 2 * a.len());
         }
+        "Buffered::next" | "Buffered::is_exhausted" | "Signal::buffered" | "Buffered::next_frames" | "BufferedFrames::next" | "Buffered::into_parts" => {
+            // any capacity, any valid (start, len) pre-fill
+            let cap = 1 + (seed % 4) as usize;
+            let start = (seed / 4 % cap as u64) as usize;
+            let plen = (seed / 16 % (cap as u64 + 1)) as usize;
+            let storage: Vec<F2> = (0..cap).map(|i| [1000 + i as i16, -(1000 + i as i16)]).collect();
+            let prefill: Vec<F2> = (0..plen).map(|i| storage[(start + i) % cap]).collect();
+            let mut ideal: Vec<F2> = prefill.clone();
+            ideal.extend(a.iter().cloned());
+            let batches = target == "Buffered::next_frames" || target == "BufferedFrames::next";
+            let (sa, ca) = src(a.clone());
+            let rb = ring_buffer::Bounded::from_raw_parts(start, plen, storage.clone());
+            let mut s = sa.buffered(rb);
+            rec!(ca.get(), 0);
+            let mut delivered = 0usize;   // frames delivered so far
+            let mut pulled = 0usize;      // source frames pulled so far (model)
+            let mut pending = plen;       // frames waiting in the buffer (model)
+            for step in 0..(ideal.len() + 2 * cap + 2) {
+                rec!(s.is_exhausted(), pending == 0 && pulled >= a.len());
+                if batches && step % 3 == 0 {
+                    if pending == 0 { pulled += cap; pending = cap; }
+                    let take = 1 + (seed as usize + step) % (pending.max(1));
+                    let g: Vec<F2> = s.next_frames().take(take).collect();
+                    let n = take.min(pending);
+                    let w: Vec<F2> = (0..n).map(|k| at(&ideal, delivered + k)).collect();
+                    delivered += n; pending -= n;
+                    rec!(g, w);
+                } else {
+                    if pending == 0 { pulled += cap; pending = cap; }
+                    rec!(s.next(), at(&ideal, delivered));
+                    delivered += 1; pending -= 1;
+                }
+                rec!(ca.get(), pulled);
+            }
+            let (_sig, rb2) = s.into_parts();
+            rec!(rb2.len(), pending);
+        }
         _ => {}
     }
     (got.join(" | "), want.join(" | "))
@@ -267,7 +304,7 @@ const TARGETS: &[&str] = &[
     "AddAmp::next", "MulAmp::next", "ScaleAmp::next", "ScaleAmpPerChannel::next", "OffsetAmp::next",
     "OffsetAmpPerChannel::next", "Map::next", "ZipMap::next", "Inspect::next", "ClipAmp::next", "Delay::next",
     "RefMut::next", "FromIterator::next", "FromInterleavedSamplesIterator::next", "UntilExhausted::next",
-    "Take::next", "IntoInterleavedSamples::next_sample",
+    "Take::next", "IntoInterleavedSamples::next_sample", "Buffered::next", "Buffered::next_frames",
 ];
 
 fn field<'a>(js: &'a str, k: &str) -> &'a str {
@@ -319,7 +356,7 @@ fn main() {
     for t in list {
         let mut hit = false;
         'outer: for len in 0..7usize {
-            for k in 0..12u64 {
+            for k in 0..40u64 {
                 let seed = seed0.wrapping_mul(31).wrapping_add(k);
                 evals += 1;
                 let (g, w) = guarded(t, seed, len);
